@@ -82,19 +82,20 @@ async fn isolated(pattern: &str, key: &str) -> Result<Obs, String> {
 async fn in_context(pattern: &str, keys: &[String]) -> Result<(BTreeSet<String>, BTreeSet<String>, BTreeSet<String>), String> {
     let mut wb = fresh_core(false);
     let c = client_id(0);
-    let sub = wb.psubscribe(client_id(1), 1, pattern.to_owned(), false, true).await;
+    let mut sub = wb.psubscribe(client_id(1), 1, pattern.to_owned(), false, true).await;
+    let mut n = BTreeSet::new();
     for k in keys {
         wb.set(k.clone(), json!(k), c, false)
             .await
             .map_err(|e| format!("set {k:?} rejected: {e}"))?;
-    }
-    let mut n = BTreeSet::new();
-    if let Ok((mut rx, _)) = sub {
-        while let Ok(ev) = rx.try_recv() {
-            if let PStateEvent::KeyValuePairs(kvps) = ev {
-                for k in kvps {
-                    if !n.insert(k.key.clone()) {
-                        return Err(format!("psubscribe {pattern:?}: key {:?} notified twice for one set", k.key));
+        // drained after every set: the channel of a subscription has a bounded number of slots
+        if let Ok((rx, _)) = sub.as_mut() {
+            while let Ok(ev) = rx.try_recv() {
+                if let PStateEvent::KeyValuePairs(kvps) = ev {
+                    for k in kvps {
+                        if !n.insert(k.key.clone()) {
+                            return Err(format!("psubscribe {pattern:?}: key {:?} notified twice for one set", k.key));
+                        }
                     }
                 }
             }
@@ -167,8 +168,11 @@ pub fn run(ctx: &Ctx) -> Evidence {
     // all subscriptions at once (patterns up to depth 4, so that no channel can fill up)
     {
         let crowd: Vec<String> = patterns.iter().filter(|p| p.split('/').count() <= 4).cloned().collect();
+        // at most 363 keys: a subscription's channel (1000 slots) is only drained at the end
+        let crowd_keys: Vec<String> = keys.iter().filter(|k| k.split('/').count() <= 5).cloned().collect();
+        let keys = &crowd_keys;
         let runner = Runner::new(false);
-        match runner.run(crowded(&crowd, &keys)) {
+        match runner.run(crowded(&crowd, keys)) {
             Ok(Ok(results)) => {
                 ev.count("subscriptions_held_at_the_same_time", results.len() as u64);
                 for (p, n) in results {
